@@ -23,7 +23,7 @@ def main():
     rows = []
     for sid in sorted(os.listdir(os.path.join(VERIF, 'seeded'))):
         d = os.path.join(VERIF, 'seeded', sid)
-        if not os.path.isdir(d) or (only and sid not in only):
+        if not os.path.isdir(d) or sid.startswith('_') or (only and sid not in only):
             continue
         head = sh('git -C /repo rev-parse HEAD').stdout.strip()
         sh('git -C %s reset -q --hard && git -C %s checkout -q --detach %s' % (WT, WT, head))
